@@ -70,6 +70,13 @@ def run(ctx):
     # every shared table of the pattern parsers is read by some item: each class, plain and negated, alone and in brackets
     directed = ["P" + hx(p.encode()) for p in CLASS_PATTERNS]
     items += directed
+    # the same text once as a string literal and once as a pattern, in different specifications: whatever is kept per text
+    # must not carry over from one to the other
+    twins = []
+    for txt in ["=+", "a|b", "x*", "[i]", "ab?", "(a)", "a.b", "i+"]:
+        twins.append("S" + hx(('grammar lit;\nstart = "%s" ID;\nID = /[a-z]+/;\n' % txt).encode()))
+        twins.append("S" + hx(('grammar pat;\nstart = TT NUM;\nTT = /%s/;\nNUM = /[0-9]+/;\n' % txt).encode()))
+    items += twins
     rejected = ["P" + hx(p.encode()) for p in REJECTED_PATTERNS]
     after = ["P" + hx(p.encode()) for p in ACCEPTED_AFTER]
     items += rejected + after
@@ -83,6 +90,7 @@ def run(ctx):
     groups = [rng.sample(items, 4) for _ in range(6 if quick else 40)]
     groups += [rng.sample(directed, 4) for _ in range(6 if quick else 40)]
     groups += [rng.sample(rejected, 2) + rng.sample(after, 2) for _ in range(8 if quick else 60)]
+    groups += [[twins[2 * i], twins[2 * i + 1]] + rng.sample(twins, 2) for i in rng.sample(range(len(twins) // 2), 4 if quick else 8)]
     lines, orders = [], []
     for g in groups:
         for perm in itertools.permutations(g):
@@ -140,7 +148,7 @@ def run(ctx):
         if f["id"] == "F21" and stats["race_reports_dependency_state"] > 0:
             ctx.known_hits.append(f)
     cov = {"evaluations": stats["sequential_orders"] + stats["concurrent_rounds"], "distinct_nontrivial": len(distinct),
-           "rule": "specifications (definition sets, defect-seeded specifications), generated patterns and a fixed list of patterns that together read every class table (plain, negated, in brackets), and rejected patterns of every kind (semantic error, syntax error, both) mixed with accepted ones; after every item the harness prints emerge's package-level tables (Predefs, the EBNF grammar tables, terminalNames, RuneClasses members as stored, escapedChars) and compares them with their initial print; the result of a pattern includes the syntax tree as built; each alone in a fresh process (baseline); all 24 orders of groups of 4 in one process; 8 different items on 8 goroutines started together, repeated, in a harness built with -race; a race report is attributed to the owner of the state by the first non-runtime, non-standard-library frame; non-trivial = distinct item",
+           "rule": "specifications (definition sets, defect-seeded specifications), generated patterns and a fixed list of patterns that together read every class table (plain, negated, in brackets), rejected patterns of every kind (semantic error, syntax error, both) mixed with accepted ones, and pairs of specifications that use the same text once as a string literal and once as a pattern; after every item the harness prints emerge's package-level tables (Predefs, the EBNF grammar tables, terminalNames, RuneClasses members as stored, escapedChars) and compares them with their initial print; the result of a pattern includes the syntax tree as built; each alone in a fresh process (baseline); all 24 orders of groups of 4 in one process; 8 different items on 8 goroutines started together, repeated, in a harness built with -race; a race report is attributed to the owner of the state by the first non-runtime, non-standard-library frame; non-trivial = distinct item",
            "samples": [decode_hex_fields(items[0][1:])[:150], decode_hex_fields(items[-1][1:])[:80]], "outcomes": stats,
            "explanation": "partial: the frame theorem (disjoint private state + read-only shared data => every interleaving and every order give the isolated result) and the re-extracted, classified list of emerge's package-level variables carry the logic; data-race freedom itself rests on the race detector over the schedules that occur; the dependency's package-level hashers and shuffle generator are outside /repo (finding F21)",
            "trusted_base": TRUSTED_BASE + ["Go race detector", "translator fact `globals` (syntactic list of package-level variables)"]}
